@@ -109,6 +109,15 @@ def run(res, tier, only_case=None):
                     continue
                 src = f if ("k" in ops or "h" in ops) else None
                 cases.append((tag, "F %s %s %s" % (vlib.hexs(g), vlib.hexs(src) if src else "-", ops)))
+    # delta sources whose chunk checksum type (digest length) differs from the target's
+    for _ in range(3 if tier == "quick" else 12):
+        chunks = [rng.rbytes(rng.choice([10, 300, 5000])) for _ in range(rng.randrange(1, 5))]
+        for tc, sc in ((3, 2), (3, 1), (0, 2), (1, 2), (2, 3), (3, 0)):
+            tgt, _ = zckfmt.build_file(chunks, ht=1, cht=tc)
+            srcf, _ = zckfmt.build_file(chunks + [rng.rbytes(40)], ht=1, cht=sc)
+            hdr_len = len(tgt) - sum(len(c) for c in chunks)
+            for ops in ("k,v,r4096", "h,k,m0"):
+                cases.append(("src-cht%d-tgt-cht%d" % (sc, tc), "F %s %s %s" % (vlib.hexs(tgt[:hdr_len] + bytes(len(tgt) - hdr_len)), vlib.hexs(srcf), ops)))
     alines = [c[1] for c in cases]
     ao, aerrs = vlib.run_cases_resilient(api, alines, wd, "api", env=env, timeout=3000)
     errmap = dict(aerrs)
